@@ -1324,8 +1324,14 @@ fn static_shapes(src: &str, ast: &Ast, toks: &[Tk]) -> Vec<&'static str> {
                 v.push("comment_before_closer");
             }
             let prev = toks[..i].iter().rev().find(|p| p.token != Token::Whitespace);
-            let first_on_line = toks.iter().find(|x| x.line == t.line && x.token != Token::Whitespace);
-            if prev.is_some_and(|p| p.token == Token::Comma) && first_on_line.is_some_and(|x| matches!(x.token, Token::From | Token::Import)) {
+            // the comma belongs to an import item list: going back over item tokens only, an `import` keyword is reached
+            let in_import = toks[..i]
+                .iter()
+                .rev()
+                .take_while(|x| matches!(x.token, Token::Whitespace | Token::NewLine | Token::CommentSingle | Token::CommentMulti | Token::Comma
+                    | Token::Id | Token::As | Token::Dot | Token::StringStart(_) | Token::StringEnd | Token::StringLiteral | Token::Import))
+                .any(|x| x.token == Token::Import);
+            if prev.is_some_and(|p| p.token == Token::Comma) && in_import {
                 v.push("comment_in_import_list");
             }
         }
